@@ -436,6 +436,21 @@ Definition formula_is_string_stub (d : bytes) : bool :=
   (nth 6 d 1 =? 0) && (nth 12 d 0 =? 255) && (nth 13 d 0 =? 255) &&
   (match drop 20 d with [3; 0; 30; 1; 0] => true | _ => false end).
 
+(* the 0x0207 (String) arm of the sheet loop: `if r.cont.is_some() && biff8 && r.data.len() >= 3`
+   the cch characters are read through read_dbcs (every CONTINUE record starts with its own
+   fHighByte byte); otherwise parse_string on the record's own bytes.  `c` is Record::cont as
+   RecordIter hands it over: None when no CONTINUE record follows. *)
+Definition string_arm (d : bytes) (c : option (list bytes)) : outcome (list N) :=
+  match c with
+  | Some conts =>
+    if len d <? 3 then parse_string d else
+    do cch <- read_u16 d;
+    let hb := N.odd (nth 2 d 0) in                 (* r.data[2] & 0x1 != 0 *)
+    do r <- read_dbcs (drop 3 d, conts) cch hb;    (* r.data = &r.data[3..] *)
+    Ok (fst r)
+  | None => parse_string d
+  end.
+
 Fixpoint wb_sheet (recs : list (outcome rec_item)) (strings : list (list N)) (fmla_pos : N * N)
          (cells : list scell) : outcome (list scell) :=
   match recs with
@@ -443,7 +458,7 @@ Fixpoint wb_sheet (recs : list (outcome rec_item)) (strings : list (list N)) (fm
   | Err e :: _ => Err e
   | Panic :: _ => Panic
   | OutOfFuel :: _ => OutOfFuel
-  | Ok (t, d, _) :: rest =>
+  | Ok (t, d, c) :: rest =>
     if t =? 253 then                                             (* 0x00FD LabelSst *)
       do c <- parse_label_sst d strings;
       wb_sheet rest strings fmla_pos (cells ++ match c with Some x => [x] | None => [] end)
@@ -451,7 +466,7 @@ Fixpoint wb_sheet (recs : list (outcome rec_item)) (strings : list (list N)) (fm
       do c <- parse_label d;
       wb_sheet rest strings fmla_pos (cells ++ match c with Some x => [x] | None => [] end)
     else if t =? 519 then                                        (* 0x0207 String *)
-      do s <- parse_string d;
+      do s <- string_arm d c;
       wb_sheet rest strings fmla_pos (cells ++ [(fst fmla_pos, snd fmla_pos, s)])
     else if t =? 6 then                                          (* 0x0006 Formula *)
       if len d <? 20 then Err E_LEN else
@@ -585,6 +600,20 @@ Definition sst_items (strs : list ustring) (lay : layout) : list item :=
 Definition sst_encode (strs : list ustring) (lay : layout) : rstate :=
   frags (sst_items strs lay).
 
+(* a formula's string result: the STRING record holds the XLUnicodeString header (cch of the whole
+   string, fHighByte of its first segment) and the first segment; every cut inside the character
+   data closes the record and opens a CONTINUE record that starts with its own fHighByte byte
+   ([MS-XLS] 2.1.7.20.5 Formula ... [String *Continue]).  Same cut language as the character data
+   of an SST string (char_items). *)
+Definition fstring_items (us : ustring) (hb : bool) (cuts : list (nat * bool)) : list item :=
+  B (le16 (len us) ++ [b2n hb]) :: char_items (units us) hb cuts.
+(* body of the STRING record and bodies of the CONTINUE records that follow it *)
+Definition fstring_encode (us : ustring) (hb : bool) (cuts : list (nat * bool)) : rstate :=
+  frags (fstring_items us hb cuts).
+(* Record::cont as RecordIter builds it: None unless at least one CONTINUE record follows *)
+Definition cont_opt (cs : list bytes) : option (list bytes) :=
+  match cs with [] => None | _ => Some cs end.
+
 (* XLUnicodeString (LABEL, STRING) and ShortXLUnicodeString (BoundSheet8) *)
 Definition xl_string (hb : bool) (us : list N) : bytes :=
   le16 (len us) ++ [b2n hb] ++ seg_bytes hb us.
@@ -601,13 +630,18 @@ Definition boundsheet_body (pos vis typ : N) (hb : bool) (us : list N) : bytes :
 Definition frame (t : N) (body : bytes) : bytes := le16 t ++ le16 (len body) ++ body.
 Definition frame_sst (st : rstate) : bytes :=
   frame 252 (fst st) ++ flat_map (frame 60) (snd st).
+(* any record followed by its CONTINUE records *)
+Definition frame_rec (t : N) (st : rstate) : bytes :=
+  frame t (fst st) ++ flat_map (frame 60) (snd st).
 
 (* a whole Workbook stream: globals (BOF, CodePage, one BoundSheet8 per sheet, SST + CONTINUEs, EOF)
    followed by one substream per sheet (BOF, text cells, EOF) *)
 Inductive cell_spec :=
 | CSst (row col isst : N)                          (* LABELSST *)
 | CLabel (row col : N) (hb : bool) (us : list N)   (* LABEL *)
-| CFString (row col : N) (hb : bool) (us : list N) (* FORMULA with a string result + STRING *).
+| CFString (row col : N) (hb : bool) (us : list N) (cuts : list (nat * bool))
+    (* FORMULA with a string result + STRING [+ one CONTINUE per cut]; hb = packing of the first
+       segment, cuts = (characters in the segment that ends there, packing of the next one) *).
 Record sheet_spec := mkSheet { sh_hb : bool; sh_name : list N; sh_cells : list cell_spec }.
 
 Definition bof_body (dt : N) : bytes :=
@@ -620,7 +654,8 @@ Definition cell_records (c : cell_spec) : bytes :=
   match c with
   | CSst r c i => frame 253 (labelsst_body r c 15 i)
   | CLabel r c hb us => frame 516 (label_body r c 15 hb us)
-  | CFString r c hb us => frame 6 (formula_stub_body r c 15) ++ frame 519 (xl_string hb us)
+  | CFString r c hb us cuts =>
+    frame 6 (formula_stub_body r c 15) ++ frame_rec 519 (fstring_encode us hb cuts)
   end.
 Definition sheet_stream (sh : sheet_spec) : bytes :=
   frame 2057 (bof_body 16) ++ flat_map cell_records (sh_cells sh) ++ frame 10 [].
@@ -647,7 +682,7 @@ Definition cell_text (tbl : list (list N)) (c : cell_spec) : list scell :=
     | None => []
     end
   | CLabel r c _ us => [(r, c, utf16_decode us)]
-  | CFString r c _ us => [(r, c, utf16_decode us)]
+  | CFString r c _ us _ => [(r, c, utf16_decode us)]
   end.
 Definition wb_spec (strs : list ustring) (shs : list sheet_spec) : list (list N * list scell) :=
   map (fun sh => (filter (fun c => negb (c =? 0)) (utf16_decode (sh_name sh)),
@@ -706,6 +741,11 @@ Definition legal_xl_string (hb : bool) (us : list N) : bool :=
 Definition legal_short_string (hb : bool) (us : list N) : bool :=
   (len us <=? 255) && all_lt 65536 us && seg_ok hb us.
 
+(* a formula's string result over STRING + CONTINUE records: any cuts (each leaving at least one
+   character after it; empty segments allowed), any packing per segment that can hold its units *)
+Definition legal_fstring (us : ustring) (hb : bool) (cuts : list (nat * bool)) : bool :=
+  (len us <=? 65535) && all_lt 65536 us && cuts_legal us hb cuts.
+
 (* every CONTINUE body and the SST body fit a record (MS-XLS: at most 8224 bytes) *)
 Definition fits_records (st : rstate) : bool :=
   (len (fst st) <=? 8224) && forallb (fun c => len c <=? 8224) (snd st).
@@ -715,7 +755,10 @@ Definition legal_cell (c : cell_spec) : bool :=
   match c with
   | CSst r c i => i <=? 4294967295
   | CLabel r c hb us => legal_xl_string hb us && (len (label_body r c 15 hb us) <=? 65535)
-  | CFString r c hb us => legal_xl_string hb us && (len (xl_string hb us) <=? 65535)
+  | CFString r c hb us cuts =>
+    legal_fstring us hb cuts
+    && (len (fst (fstring_encode us hb cuts)) <=? 65535)
+    && forallb (fun c => len c <=? 65535) (snd (fstring_encode us hb cuts))
   end.
 Definition legal_sheet (sh : sheet_spec) : bool :=
   legal_short_string (sh_hb sh) (sh_name sh) && forallb legal_cell (sh_cells sh).
